@@ -716,8 +716,9 @@ bool Parser::parseEnumerator(DeclarationSyntax*& decl)
             return false;
     }
 
-    if (peek().kind() == SyntaxKind::Keyword_ExtGNU___attribute__)
-        parseExtGNU_AttributeSpecifierList_AtFirst(enumMembDecl->attrs_);
+    if (peek().kind() == SyntaxKind::Keyword_ExtGNU___attribute__
+            && !parseExtGNU_AttributeSpecifierList_AtFirst(enumMembDecl->attrs_))
+        return false;
 
     switch (peek().kind()) {
         case SyntaxKind::EqualsToken:
@@ -1556,8 +1557,9 @@ bool Parser::parseTagTypeSpecifier_AtFirst(
     spec = tySpec;
     tySpec->kwTkIdx_ = consume();
 
-    if (peek().kind() == SyntaxKind::Keyword_ExtGNU___attribute__)
-        parseExtGNU_AttributeSpecifierList_AtFirst(tySpec->attrs1_);
+    if (peek().kind() == SyntaxKind::Keyword_ExtGNU___attribute__
+            && !parseExtGNU_AttributeSpecifierList_AtFirst(tySpec->attrs1_))
+        return false;
 
     auto wrapTySpecInTyDecl = [&]() {
         auto tyDecl = makeNode<TypeDeclT>(declK);
@@ -1627,8 +1629,9 @@ bool Parser::parseTagTypeSpecifier_AtFirst(
     }
 
 MembersParsed:
-    if (peek().kind() == SyntaxKind::Keyword_ExtGNU___attribute__)
-        parseExtGNU_AttributeSpecifierList_AtFirst(tySpec->attrs2_);
+    if (peek().kind() == SyntaxKind::Keyword_ExtGNU___attribute__
+            && !parseExtGNU_AttributeSpecifierList_AtFirst(tySpec->attrs2_))
+        return false;
 
     return true;
 }
@@ -1909,8 +1912,9 @@ bool Parser::parseDeclarator(DeclaratorSyntax*& decltor,
     DBG_THIS_RULE();
 
     SpecifierListSyntax* attrList = nullptr;
-    if (peek().kind() == SyntaxKind::Keyword_ExtGNU___attribute__)
-        parseExtGNU_AttributeSpecifierList_AtFirst(attrList);
+    if (peek().kind() == SyntaxKind::Keyword_ExtGNU___attribute__
+            && !parseExtGNU_AttributeSpecifierList_AtFirst(attrList))
+        return false;
 
     if (peek().kind() == SyntaxKind::AsteriskToken) {
         auto ptrDecltor = makeNode<PointerDeclaratorSyntax>();
@@ -2092,8 +2096,9 @@ bool Parser::parseDirectDeclarator(DeclaratorSyntax*& decltor,
         if (!parseExpressionWithPrecedenceConditional(bitFldDecltor->expr_))
             return false;
 
-        if (peek().kind() == SyntaxKind::Keyword_ExtGNU___attribute__)
-            parseExtGNU_AttributeSpecifierList_AtFirst(bitFldDecltor->attrs_);
+        if (peek().kind() == SyntaxKind::Keyword_ExtGNU___attribute__
+                && !parseExtGNU_AttributeSpecifierList_AtFirst(bitFldDecltor->attrs_))
+            return false;
     }
 
     return true;
